@@ -131,6 +131,17 @@ static void setup_state(int state, enum cl_kind rkind)
 			xp_fail("setup-failed", "scenario preamble (requester's fetches) was not answered with success");
 		}
 	}
+	if (state == 5) {
+		/* the other owner has stopped reading and its write buffer is full: everything the daemon wants to send to it fails */
+		sim_set_window(Y, 0);
+		for (int i = 0; i < 90; i++) {
+			jx_sendf(R, "{\"id\":\"fill%d\",\"method\":\"change\",\"params\":{\"path\":\"rs\",\"value\":\"%060d\"}}", i, i);
+			if ((i & 7) == 7) {
+				jx_settle();
+			}
+		}
+		jx_settle();
+	}
 	if (state == 2) {
 		jx_sendf(R, "{\"id\":\"pre\",\"method\":\"call\",\"params\":{\"path\":\"ym\",\"args\":[0]}}");
 		jx_settle();
@@ -421,9 +432,9 @@ static void run(void)
 	int nstates = (int)xp_param("states", 4);
 	int ntrans = (int)xp_param("transports", 2);
 	/* order of exploration: empty, populated, populated + requester holds fetches with the ids the alphabet uses, then the two in-flight states */
-	static const int STATE_ORDER[5] = {0, 1, 4, 2, 3};
-	if (nstates > 5) {
-		nstates = 5;
+	static const int STATE_ORDER[6] = {0, 1, 4, 5, 2, 3};
+	if (nstates > 6) {
+		nstates = 6;
 	}
 	int state = STATE_ORDER[xp_choose(nstates, XP_SCENARIO, "state")];
 	enum cl_kind rkind = xp_choose(ntrans, XP_SCENARIO, "transport") ? CL_WS : CL_RAW;
